@@ -320,6 +320,26 @@ class Pipeline(Stage):
                     break
                 if not okc:
                     res.bad('rendered:token', '%r argument %d shown as %r (%s)' % (line, i, tok, why))
+        # the same messages handed over the way the GDB backend builds them (nil arguments arrive with the interface the closure
+        # declares, sent targets without interface, arrays decoded): names, nil types and labels must come out the same
+        if known and not res.discs:
+            from .. import tracker
+            tr = tracker.Tracker('gdb-shaped')
+            for spec, line in zip(specs, lines):
+                try:
+                    msg, rec = tr.apply(dict(spec))
+                except Exception as e:
+                    if not env.repo_frames(e.__traceback__):
+                        raise
+                    res.bad('rendered:gdb-shaped-crash', '%s: %s' % (type(e).__name__, e))
+                    break
+                a = session.MSG_LINE.match(line).group(3)
+                b = str(msg)
+                norm = lambda t: re.sub(r'\[[^\[\]]*\]', '[ARRAY]', t)
+                res.evals += 1
+                if norm(a) != norm(b):
+                    res.bad('rendered:gdb-shaped-differs', 'log mode shows %r, the same message built as the GDB backend builds it shows %r' % (a, b))
+                    break
         res.nontrivial = len(plan) > 0
         res.label('unknown-interface' if not known else 'known-interface')
         res.sample = dict(interface=iface, lines=lines[skip:skip + 3])
